@@ -108,11 +108,18 @@ func CheckPruningStatic(r *Run, o queryObs, census *Census) {
 	}
 	hasBloom := bloom != nil && bloom.Expression != nil
 	noConds := !hasBloom && (regex == nil || regex.Expression == nil)
+	hasRegex := regex != nil && regex.Expression != nil
+	// A block (or file) is ruled out when its filters exclude the bloom expression, or when they
+	// exclude the existence of a field a regex condition needs (a regex on field F can only match
+	// a row that has F): the documented field-existence guard.
 	may := func(f *bs.BloomFilters) bool {
-		if f == nil || !hasBloom {
+		if f == nil {
 			return true
 		}
-		return bloomMay(bloom.Expression, f)
+		if hasBloom && !bloomMay(bloom.Expression, f) {
+			return false
+		}
+		return true
 	}
 	opened := map[string]bool{}
 	for _, c := range o.Calls {
@@ -132,7 +139,7 @@ func CheckPruningStatic(r *Run, o queryObs, census *Census) {
 				anySurv = true
 			}
 		}
-		if opened[fv.Ptr] && hasBloom && !may(&md.BloomFilters) {
+		if opened[fv.Ptr] && hasBloom && !bloomMay(bloom.Expression, &md.BloomFilters) { // files: the bloom expression only, as stated
 			r.Violate("C24", "disqualified-file-opened", "query %s = %s opened file %s although its file-level filters rule the query out", o.Tag, describeQuery(q), fv.Ptr)
 		}
 		if opened[fv.Ptr] && !anySurv {
@@ -157,6 +164,8 @@ func CheckPruningStatic(r *Run, o queryObs, census *Census) {
 						r.Violate("C24", "prefiltered-block-read", "query %s read [%d,%d) of %s, inside block@%d which its prefilter rejects", o.Tag, lo, hi, fv.Ptr, bv.Meta.RowDataOffset)
 					} else if hasBloom && bv.Filters != nil && !may(bv.Filters) {
 						r.Violate("C24", "bloom-pruned-block-read", "query %s = %s read [%d,%d) of %s, inside block@%d which its block filters rule out", o.Tag, describeQuery(q), lo, hi, fv.Ptr, bv.Meta.RowDataOffset)
+					} else if hasRegex && bv.Filters != nil && !regexGuardMay(regex.Expression, bv.Filters) {
+						r.Violate("C24", "regex-guard-pruned-block-read", "query %s = %s read [%d,%d) of %s, inside block@%d whose field filter rules out a field its regex needs", o.Tag, describeQuery(q), lo, hi, fv.Ptr, bv.Meta.RowDataOffset)
 					}
 				}
 			}
